@@ -42,8 +42,12 @@ def _chunk(items):
         try:
             with common.Alarm(10):
                 toks = mtok(src) if mode == 'markup' else ctok(src, mode == 'css-value')
+                if tid % 3 == 0:
+                    # the token objects belong to the caller: changed in place, they must not come back from the next identical call
+                    common.scramble(toks)
+                    toks = mtok(src) if mode == 'markup' else ctok(src, mode == 'css-value')
             rec = {'tid': tid, 'src': src, 'mode': mode, 'len': len(src), 'kind': 'tokens', 'pos': 0,
-                   'toks': [{'t': t.type, 's': -1 if t.start is None else int(t.start), 'e': -1 if t.end is None else int(t.end)} for t in toks]}
+                   'toks': [{'t': str(getattr(t, 'type', type(t).__name__)), 's': -1 if getattr(t, 'start', None) is None else int(t.start), 'e': -1 if getattr(t, 'end', None) is None else int(t.end)} for t in toks]}
         except ScannerException as ex:
             rec = {'tid': tid, 'src': src, 'mode': mode, 'len': len(src), 'kind': 'error', 'toks': [],
                    'pos': -99 if ex.pos is None else int(ex.pos)}
